@@ -93,7 +93,7 @@ theorem toPoly_one : toPoly 1 = 1 := by
 
 /-- `2^s * a + b` with `b < 2^s` is the concatenation of the bits of `b` (low) and `a` (high) -/
 theorem toPoly_two_pow_mul_add (a : ℕ) {b s : ℕ} (hb : b < 2 ^ s) :
-    toPoly (2 ^ s * a + b) = X ^ s * toPoly a + toPoly b := by
+    toPoly (2 ^ s * a + b) = toPoly b + X ^ s * toPoly a := by
   ext i
   rw [coeff_add, coeff_toPoly, coeff_toPoly, coeff_X_pow_mul', coeff_toPoly,
     Nat.testBit_two_pow_mul_add a hb i]
@@ -187,7 +187,8 @@ theorem modP_Q_mul (r a : (ZMod 2)[X]) : (a + r * Q) %ₘ P = (a + r * X ^ 128) 
     generalize (X : (ZMod 2)[X]) ^ 128 = Y
     ring
   rw [this, Q_sub]
-  exact dvd_mul_left P r
+  generalize P = p
+  exact dvd_mul_left p r
 
 /-! ### comb accumulation = plain product -/
 
